@@ -17,7 +17,7 @@
 (*  Tables    structural identities and textbook values of the re-derived      *)
 (*            P1 / P2 reference matrices                                        *)
 (*  FxPath    the limb-vector path agrees with the rational path               *)
-EXTENDS Numeric, MC_Universe
+EXTENDS Integration, MC_Universe
 
 \* (q + k)! * integral over a list of simplices, as an integer:  sum Jac * MonoSum
 IntNum(S, alpha) == ISumAll([s \in DOMAIN S |-> SimplexJac(S[s]) * SimplexMonoSum(S[s], alpha)])
@@ -113,6 +113,26 @@ FxPath(al) ==
       q == Q(IntNum(S, al), Fact(SumSeq(al) + 2)) IN
   q[2] <= 65536 => FxNear(SimplicesIntegralFx(S, al), FxOfQ(q), FxUlp(64))
 
+\* ---- the rule behind the tensor-cell entries ----
+\* Boole's rule on k/4 is exact to degree 5:  sum_k w_k (k/4)^n / 90 = 1/(n+1)
+BooleExact == \A n \in 0..5 : ISumAll([k \in 1..5 |-> BooleW[k] * IPow(k - 1, n)]) * (n + 1) = 90 * IPow(4, n)
+\* ... and not to degree 6 (the degree bound in EntriesTWF is sharp)
+BooleSharp == ISumAll([k \in 1..5 |-> BooleW[k] * IPow(k - 1, 6)]) * 7 # 90 * IPow(4, 6)
+\* the tensor oracle reproduces the textbook Q1 mass matrix of the unit square (1/9, 1/18, 1/36) and, on a square of
+\* side 2 split into triangles' worth of area, the load vector 1 per vertex
+UnitSquareEvent(vals, form) ==
+  [a |-> "EntriesT", kind |-> "quad", scale |-> 1, deg |-> 1, form |-> form, N |-> 4, err |-> "",
+   p |-> << <<0, 0>>, <<1, 0>>, <<1, 1>>, <<0, 1>> >>, ents |-> << <<1, 2, 3, 4>> >>, edofs |-> << <<1, 2, 3, 4>> >>,
+   lnodes |-> << <<0, 0>>, <<1, 0>>, <<1, 1>>, <<0, 1>> >>, vals |-> vals]
+Q1Textbook ==
+  LET m(i, j) == IF i = j THEN FxRat(1, 9) ELSE IF (i + j) % 2 = 1 THEN FxRat(1, 18) ELSE FxRat(1, 36)
+      mv == [r \in 1..16 |-> <<((r - 1) \div 4) + 1, ((r - 1) % 4) + 1>> \o m(((r - 1) \div 4) + 1, ((r - 1) % 4) + 1)]
+      lv == [r \in 1..4 |-> <<r, 0>> \o FxRat(1, 4)]
+  IN /\ EntriesTWF(UnitSquareEvent(mv, "mass")) /\ EntriesTExact(UnitSquareEvent(mv, "mass"))
+     /\ EntriesTWF(UnitSquareEvent(lv, "load")) /\ EntriesTExact(UnitSquareEvent(lv, "load"))
+     \* a wrong entry is rejected
+     /\ ~EntriesTExact(UnitSquareEvent([mv EXCEPT ![2] = <<1, 2>> \o FxRat(1, 17)], "mass"))
+
 \* ---------------------------------------------------------------------------
 Jobs == ({"Box2D"} \X [1..4 -> {0, 1}] \X Alphas(2, 4))
         \cup ({"Box3D"} \X {5, 6} \X Alphas(3, 3))
@@ -120,7 +140,7 @@ Jobs == ({"Box2D"} \X [1..4 -> {0, 1}] \X Alphas(2, 4))
         \cup ({"Perm", "Motion", "Refine", "FxPath"} \X {0} \X Alphas(2, 4))
         \cup ({"Perm"} \X {0} \X Alphas(3, 3))
         \cup ({"Tables"} \X {2, 3, 4} \X {<<0>>, <<1>>, <<2>>})
-        \cup {<<"Textbook", 0, <<0>>>>, <<"Sheared", 0, <<0>>>>}
+        \cup {<<"Textbook", 0, <<0>>>>, <<"Sheared", 0, <<0>>>>, <<"Boole", 0, <<0>>>>, <<"Q1Textbook", 0, <<0>>>>}
 
 Check(job) ==
   LET kind == job[1] arg == job[2] al == job[3] IN
@@ -134,6 +154,8 @@ Check(job) ==
     [] kind = "Tables" -> Tables(arg, al[1])
     [] kind = "Textbook" -> Textbook
     [] kind = "Sheared"  -> DecompSheared
+    [] kind = "Boole"    -> BooleExact /\ BooleSharp
+    [] kind = "Q1Textbook" -> Q1Textbook
 
 VARIABLE job
 Init == job \in Jobs
